@@ -53,6 +53,24 @@ def deliver (fl : Flags) (n : NodeSt) (b : ABlock) : NodeSt :=
     match pass fl (sortById q) n.st [] with
     | (st', rq, dead) => { st := st', queue := rq, dead := dead }
 
+/-- the outcome that ended a pass, if it ended fatally: `stall` (the Wind/Unwind loop never returns) or `panic` -/
+def passWhy (fl : Flags) : List ABlock → State → List ABlock → Option Outcome
+  | [], _, _ => none
+  | b :: rest, st, rq =>
+    match addBlock fl st b (rq.map (·.hash)) with
+    | (st', o) =>
+      if isFatal o then some o
+      else if isRetry o then passWhy fl rest st (rq ++ [b])
+      else passWhy fl rest st' rq
+
+/-- why `deliver` left the node dead (same queue handling as `deliver`) -/
+def deliverWhy (fl : Flags) (n : NodeSt) (b : ABlock) : Option Outcome :=
+  if n.dead then none
+  else if (getB n.st b.hash).isSome then none
+  else
+    let q := if n.queue.any (·.hash == b.hash) then n.queue else n.queue ++ [b]
+    passWhy fl (sortById q) n.st []
+
 def deliverAll (fl : Flags) (n : NodeSt) (bs : List ABlock) : NodeSt := bs.foldl (deliver fl) n
 
 /-- tip as the node reports it -/
